@@ -16,12 +16,24 @@ def rewrite_block(r):
     return any(c.get("rewrite") for c in r["children"])
 
 
-def apply(paths, dev, ctx: Ctx, rev: str, exitw: str, stats=None):
+def apply(paths, dev, ctx: Ctx, rev: str, exitw: str, stats=None, implicit_blocks=False):
+    """implicit_blocks: a flat-stream device ('set a b c'): a command that sets something creates the blocks of its path"""
     dev = copy.deepcopy(dev)
     for p in paths:
         cur = dev
         c = ctx
+        neg_flat = implicit_blocks and p[-1].startswith(rev + " ") and (_ctx_at(ctx, p[:-1]) is None or _ctx_at(ctx, p[:-1]).classify(p[-1]) is None)
+        missing = False
         for blk in p[:-1]:
+            if blk not in cur and implicit_blocks:
+                if neg_flat:
+                    missing = True      # 'delete a b c' where a b does not exist: the device answers "statement not found" and goes on
+                    break
+                cl0 = c.classify(blk)
+                if cl0 is not None:
+                    for x in [x for x in cur if c.ident(x) == (cl0[0]["id"], cl0[1])]:
+                        del cur[x]
+                    cur[blk] = odict()
             if blk not in cur:
                 raise SimError("command %r is sent inside block %r, which does not exist on the device at that point" % (p[-1], blk))
             cl = c.classify(blk)
@@ -29,6 +41,10 @@ def apply(paths, dev, ctx: Ctx, rev: str, exitw: str, stats=None):
                 raise SimError("unknown block row %r" % (blk,))
             c = c.child(cl[0], blk)
             cur = cur[blk]
+        if missing:
+            if stats is not None:
+                stats["undo-nothing"] = stats.get("undo-nothing", 0) + 1
+            continue
         cmd = p[-1]
         if exitw and cmd == exitw and len(p) > 1:
             continue
@@ -58,6 +74,16 @@ def apply(paths, dev, ctx: Ctx, rev: str, exitw: str, stats=None):
             del cur[x]
         cur[cmd] = odict()
     return dev
+
+
+def _ctx_at(ctx, blocks):
+    c = ctx
+    for blk in blocks:
+        cl = c.classify(blk)
+        if cl is None:
+            return None
+        c = c.child(cl[0], blk)
+    return c
 
 
 def expect(old, new, ctx: Ctx):
